@@ -37,7 +37,12 @@ class SpartanProtocol(BaseGopherProtocol):
         self.selector = urllib.parse.unquote(path, errors="surrogateescape")
         self.selector = self.slashnormalize(self.selector)
 
-        content_length = int(content_length)
+        try:
+            content_length = int(content_length)
+        except ValueError:
+            # Thousands of digits: over Python's integer string conversion limit.
+            self.write_status(4, "Content length too large")
+            return
         if content_length:
             try:
                 data = self.rfile.read(content_length)
